@@ -14,6 +14,7 @@
      json_marshal     : cval -> bytes               encoding/json.Marshal on any-trees
      text_in_fragment : bytes -> bool               inputs on which parse_any is claimed faithful
      val_in_fragment  : cval -> bool                values on which format_any is claimed faithful
+     cval_eqb         : cval -> cval -> bool        equality, maps compared as sets of bindings
      canonical_text   : bytes -> bool               format_any (parse_any s) = s   (text fidelity)
      plain            : bytes -> bool               syntactic sufficient condition: parse_any s = VStr s
 
@@ -549,6 +550,41 @@ Definition format_any (v : cval) : res bytes :=
   | VDec m e => Ok (fmt_float_v m e)
   | VList _ | VMap _ => Ok (json_marshal v)      (* Marshal of any-trees of these kinds cannot fail *)
   end.
+
+(* ---- comparison of values (maps as sets of bindings) -------------------------------- *)
+
+Fixpoint canon (v : cval) : cval :=
+  match v with
+  | VList l => VList (map canon l)
+  | VMap kvs => VMap (sort_kvs (map (fun kv : bytes * cval => let (k, x) := kv in (k, canon x)) kvs))
+  | _ => v
+  end.
+
+Fixpoint cval_eqb_raw (a b : cval) {struct a} : bool :=
+  match a, b with
+  | VNull, VNull => true
+  | VBool x, VBool y => Bool.eqb x y
+  | VInt x, VInt y => Z.eqb x y
+  | VDec m e, VDec m' e' => Z.eqb m m' && Z.eqb e e'
+  | VStr x, VStr y => beqb x y
+  | VList l1, VList l2 =>
+    (fix go (l1 l2 : list cval) {struct l1} : bool :=
+       match l1, l2 with
+       | [], [] => true
+       | x :: r, y :: r' => cval_eqb_raw x y && go r r'
+       | _, _ => false
+       end) l1 l2
+  | VMap m1, VMap m2 =>
+    (fix go (m1 m2 : list (bytes * cval)) {struct m1} : bool :=
+       match m1, m2 with
+       | [], [] => true
+       | (k, x) :: r, (k', y) :: r' => beqb k k' && cval_eqb_raw x y && go r r'
+       | _, _ => false
+       end) m1 m2
+  | _, _ => false
+  end.
+
+Definition cval_eqb (a b : cval) : bool := cval_eqb_raw (canon a) (canon b).
 
 (* ---- the modelled fragment --------------------------------------------------------- *)
 
